@@ -809,6 +809,11 @@ func (c *Conn) readRecordOrCCS(expectChangeCipherSpec bool) error {
 			if len(data) == 0 || expectChangeCipherSpec {
 				return c.in.setErrorLocked(c.sendAlert(alertUnexpectedMessage))
 			}
+			// DTLCP 不支持重协商：握手完成后的握手记录（例如驻留期之后对端的重传）
+			// 没有任何消费者，写入 handBuf 会使其无限增长，因此静默丢弃。
+			if handshakeComplete {
+				continue
+			}
 			c.handBuf.Write(data)
 			// 如果还有未处理记录，继续循环处理
 			if len(c.rawInputBuf) > 0 {
@@ -1492,7 +1497,7 @@ func (c *Conn) ReadFrom(p []byte) (n int, addr net.Addr, err error) {
 					return 0, c.remoteAddr, io.EOF
 				}
 			case recordTypeHandshake:
-				c.handBuf.Write(plaintext)
+				// 握手已完成，握手记录没有消费者：丢弃（不写入 handBuf，避免其无限增长）
 			}
 			continue
 		}
